@@ -8,9 +8,9 @@ Open Scope Q_scope.
 
 (* defaults found in the source: Mesh.is_aligned(tolerance=1e-12), numpy.allclose(rtol=1e-5),
    Region(tolerance_factor=1e-12) *)
-Definition align_tol : Q := 1 # 1000000000000.
+Definition align_tol : Q := Constants_gen.align_tolerance_default.   (* read from mesh.py on every run *)
 Definition align_rtol : Q := 1 # 100000.
-Definition default_tf : Q := 1 # 1000000000000.
+Definition default_tf : Q := Constants_gen.region_tf_default.
 
 (* ---------- Mesh.is_aligned ---------- *)
 (* rem = remainder(|d|, c);  off the lattice iff  tol < rem < c - tol *)
